@@ -2,17 +2,17 @@
 #define HX_HAS_ROTATION 1
 #include "generic.h"
 namespace hx {
-template <> struct Extra<manif::SO3d> {
+template <> struct Extra<manif::SO3<HX_SC>> {
   static bool run(const Req& r, Resp& R) {
     const auto& a = r.a;
-    using G = manif::SO3d;
-    if (r.op == "ctor_rpy" && a.size() == 3) { G g(a[0], a[1], a[2]); pushM(R.out, g.coeffs()); return true; }
+    using G = manif::SO3<HX_SC>;
+    if (r.op == "ctor_rpy" && a.size() == 3) { G g((HX_SC)a[0], (HX_SC)a[1], (HX_SC)a[2]); pushM(R.out, g.coeffs()); return true; }
     if (r.op == "ctor_aa" && a.size() == 4) {
-      G g(Eigen::AngleAxisd(a[0], Eigen::Vector3d(a[1], a[2], a[3]))); pushM(R.out, g.coeffs()); return true;
+      G g(Eigen::AngleAxis<HX_SC>((HX_SC)a[0], Eigen::Matrix<HX_SC, 3, 1>((HX_SC)a[1], (HX_SC)a[2], (HX_SC)a[3]))); pushM(R.out, g.coeffs()); return true;
     }
     if (r.op == "set_quat" && a.size() == 8) {
       Operand<G, 'o'> x(a.data());
-      x.mut().quat(Eigen::Quaterniond(a[7], a[4], a[5], a[6]));
+      x.mut().quat(Eigen::Quaternion<HX_SC>((HX_SC)a[7], (HX_SC)a[4], (HX_SC)a[5], (HX_SC)a[6]));
       pushM(R.out, x.get().coeffs()); return true;
     }
     if (r.op == "accessors" && a.size() == 4) {
@@ -24,5 +24,5 @@ template <> struct Extra<manif::SO3d> {
     return false;
   }
 };
-void run_SO3(const Req& r, Resp& R) { run<manif::SO3d>(r, R); }
+void run_SO3(const Req& r, Resp& R) { run<manif::SO3<HX_SC>>(r, R); }
 }
